@@ -125,3 +125,51 @@ char *__gmpz_get_str(char *str, int base, mpz_srcptr op) {
 #endif
 
 } // extern "C"
+
+// ---- operator new/delete replacement ----------------------------------------------------------
+// The library reads stacks through 640 MB line buffers (new char[TMCG_MAX_STACK_CHARS]); under ASan
+// every such allocation costs >2 s of shadow poisoning.  Requests >= 32 MiB are therefore served by
+// mmap with a PROT_NONE guard page behind them (an overrun still faults); everything else goes to
+// malloc/free, which ASan instruments as usual.  A single request above 1 GiB is reported and aborts
+// (the "unbounded allocation" class of C12) instead of being attempted.
+#include <sys/mman.h>
+#include <new>
+#include <mutex>
+namespace {
+struct BigEnt { void *user; void *base; size_t tot; };
+struct BigTab { std::mutex mu; BigEnt e[256]; int n = 0; };
+BigTab &bigtab() { static BigTab t; return t; }
+const size_t BIG = (size_t)32 << 20, HUGE_REQ = (size_t)1 << 30;
+void *vf_alloc(size_t n) {
+  if (n >= HUGE_REQ) {
+    fprintf(stderr, "VF-ALLOC: single allocation request of %zu bytes\nSUMMARY: VfAlloc: allocation-size-too-big in operator new\n", n); fflush(stderr); __builtin_trap();
+  }
+  if (n >= BIG) {
+    size_t pg = 4096, body = ((n + pg - 1) / pg) * pg, tot = body + pg;
+    char *p = (char *)mmap(NULL, tot, PROT_READ | PROT_WRITE, MAP_PRIVATE | MAP_ANONYMOUS | MAP_NORESERVE, -1, 0);
+    if (p == MAP_FAILED) throw std::bad_alloc();
+    mprotect(p + body, pg, PROT_NONE);
+    char *user = p + (body - n); user -= ((uintptr_t)user & 15); // buffer ends (almost) at the guard page
+    BigTab &t = bigtab(); std::lock_guard<std::mutex> lk(t.mu);
+    if (t.n >= 256) { munmap(p, tot); throw std::bad_alloc(); }
+    t.e[t.n].user = user; t.e[t.n].base = p; t.e[t.n].tot = tot; t.n++;
+    return user;
+  }
+  void *p = malloc(n ? n : 1); if (!p) throw std::bad_alloc(); return p;
+}
+void vf_free(void *p) {
+  if (!p) return;
+  { BigTab &t = bigtab(); std::lock_guard<std::mutex> lk(t.mu);
+    for (int i = 0; i < t.n; i++) if (t.e[i].user == p) { munmap(t.e[i].base, t.e[i].tot); t.e[i] = t.e[t.n - 1]; t.n--; return; }
+  }
+  free(p);
+}
+}
+void *operator new(size_t n) { return vf_alloc(n); }
+void *operator new[](size_t n) { return vf_alloc(n); }
+void *operator new(size_t n, const std::nothrow_t &) noexcept { try { return vf_alloc(n); } catch (...) { return nullptr; } }
+void *operator new[](size_t n, const std::nothrow_t &) noexcept { try { return vf_alloc(n); } catch (...) { return nullptr; } }
+void operator delete(void *p) noexcept { vf_free(p); }
+void operator delete[](void *p) noexcept { vf_free(p); }
+void operator delete(void *p, size_t) noexcept { vf_free(p); }
+void operator delete[](void *p, size_t) noexcept { vf_free(p); }
